@@ -126,6 +126,43 @@ func c11Scenarios() []bScenario {
 		done(rd, rd2)
 	})
 
+	add("two-reads-one-deadline", 2, 3, func() {
+		p := newEPair(pairOpts{})
+		cst, sst := openBoth(p)
+		rd1 := &c11Call{name: "ReadBytes(5)#1"}
+		rd2 := &c11Call{name: "ReadBytes(5)#2"}
+		deadline := vrt.VNow() + int64(50*ms)
+		t1 := vrt.GoProc("reader", 2, func() {
+			sst.SetReadDeadline(vrt.Now().Add(50 * ms)) // set once, not renewed between the reads
+			c11Do(rd1, func() (int, error) { b, err := sst.BufferReader().ReadBytes(5); return len(b), err })
+			sst.BufferReader().ReleasePreviousRead()
+			c11Do(rd2, func() (int, error) { b, err := sst.BufferReader().ReadBytes(5); return len(b), err })
+		})
+		t2 := vrt.GoProc("writer", 1, func() { vrt.Sleep(10 * ms); c09Flush(cst, 1, 0, 5) })
+		vrt.WaitThreads(t1, t2)
+		if rd1.err == ErrTimeout {
+			// the deadline passed before the data came (time may pass at any moment): the data then belongs to the second read
+			if rd1.to < deadline {
+				vrt.Failf("early-timeout", "first read timed out at %d ms, deadline %d ms", rd1.to/1e6, deadline/1e6)
+			}
+			done(rd1, rd2)
+			return
+		}
+		if rd1.err != nil || rd1.n != 5 {
+			vrt.Failf("read-result", "first read returned %d, %v", rd1.n, rd1.err)
+		}
+		if rd2.err != ErrTimeout {
+			vrt.Failf("read-result", "second read under the same deadline, with nothing to read, returned %d, %v", rd2.n, rd2.err)
+		}
+		if rd2.to < deadline {
+			vrt.Failf("early-timeout", "second read timed out at %d ms, deadline %d ms", rd2.to/1e6, deadline/1e6)
+		}
+		if rd2.to > deadline+int64(20*ms) {
+			vrt.Failf("too-late", "second read returned at %d ms, its deadline was %d ms", rd2.to/1e6, deadline/1e6)
+		}
+		done(rd1, rd2)
+	})
+
 	add("read-vs-local-close", 2, 3, func() {
 		p := newEPair(pairOpts{})
 		_, sst := openBoth(p)
